@@ -342,7 +342,7 @@ class HwCheck:
         saved = [(i, i.reset) for i in ins]
         try:
             for i, val in zip(ins, trace[0]):
-                i.reset = Constant(val, (i.nbits, False))
+                i.reset = Constant(val - (1 << i.nbits) if i.signed and val >> (i.nbits - 1) else val, (i.nbits, i.signed))     # the simulator starts from reset.value as it stands: keep it inside the signal's range
             def gen():
                 for k in range(len(trace)):
                     vals = {}
@@ -398,13 +398,13 @@ class HwCheck:
                 val = z3.simplify(z3.substitute(g[1], *sub)) if sub else z3.simplify(g[1])
                 out[str(g[0])] = val.as_long()
         return out
-    def cosim(self, cycles=None, seed=0):
+    def cosim(self, cycles=None, seed=0, trace=None):
         """random co-simulation: real simulator vs concrete evaluation of the extracted equations; returns #mismatches"""
-        cycles = cycles or self.cosim_cycles
+        cycles = len(trace) if trace is not None else (cycles or self.cosim_cycles)
         rnd = random.Random(seed)
         ins = self.ts.inputs
         # random inputs that satisfy the assumptions are not needed: extraction equality must hold for ALL inputs
-        trace = [[rnd.getrandbits(i.nbits) if rnd.random() < 0.7 else rnd.choice([0, (1 << i.nbits) - 1]) for i in ins] for _ in range(cycles)]
+        if trace is None: trace = [[rnd.getrandbits(i.nbits) if rnd.random() < 0.7 else rnd.choice([0, (1 << i.nbits) - 1]) for i in ins] for _ in range(cycles)]
         mem_sigs = set()
         for arr in self.ts.mems.values(): mem_sigs |= set(arr)
         # signals created by our own lowering (MemoryToArray address registers, lowered specials) do not exist in the
